@@ -5,8 +5,8 @@
 (* the one the specification computes from the history.                    *)
 EXTENDS Cache, TraceBase
 
-VARIABLES l, pressure     \* pressure: process-shared cache driven with values comparable to the segment size
-tvars == <<vars, l, pressure>>
+VARIABLES l, memsize, pressure     \* pressure: process-shared cache driven with values comparable to the segment size
+tvars == <<vars, l, memsize, pressure>>
 
 Ev == TraceLog[l]
 Is(name) == l <= NLines /\ Ev.e = name /\ l' = l + 1
@@ -26,9 +26,9 @@ TReset ==
     /\ last' = [k \in Names |-> NoEntry]
     /\ dead' = [k \in Names |-> FALSE]
     /\ present' = {} /\ order' = <<>> /\ res' = [NoRes EXCEPT !.op = "reset"] /\ nv' = 0
-    /\ pressure' = FALSE
+    /\ pressure' = FALSE /\ memsize' = 0
 
-TPressure == Is("Pressure") /\ pressure' = TRUE /\ UNCHANGED vars
+TPressure == Is("Pressure") /\ pressure' = TRUE /\ memsize' = Get(Ev, "mem", 0) /\ UNCHANGED vars
 
 \* Search heuristic, not a judgement: with VERIF_STRICT set in the environment only those victim sets are tried whose
 \* expired members are taken in deadline order (what the timeout index of the code does).  A trace rejected in this mode
@@ -38,11 +38,16 @@ PrefixOK(P0) ==
     LET gone == P0 \ present'
     IN \A e \in gone : (last[e].dl < now) => (\A j \in P0 : (last[j].dl < last[e].dl) => j \in gone)
 
+\* A store may be dropped / clear the cache only if its value is big: the make-room loop of the code guarantees a free
+\* chunk of segment/10 before the entry is linked, so a value below segment/40 always fits (DESIGN 9.2).  Traces without
+\* sizes (thread-shared cache) never use the pressure actions.
+MayDrop == ~(Has(Ev, "size") /\ memsize > 0) \/ Ev.size * 40 > memsize
+
 TStore ==
     /\ Is("Store")
-    /\ IF pressure THEN StoreUnderPressure(Ev.k, Ev.v, SeqToSet(Ev.ts), Ev.dl)
+    /\ IF pressure THEN StoreUnderPressure(Ev.k, Ev.v, SeqToSet(Ev.ts), Ev.dl, MayDrop)
                    ELSE Store(Ev.k, Ev.v, SeqToSet(Ev.ts), Ev.dl)
-    /\ nv' = nv /\ pressure' = pressure
+    /\ nv' = nv /\ pressure' = pressure /\ memsize' = memsize
     /\ StatsOK
     /\ (StrictExpired => PrefixOK(present \ {Ev.k}))
 
@@ -54,14 +59,14 @@ TFetch ==
                  /\ res'.ts = SeqToSet(Ev.ts)
                  /\ res'.dl = Ev.dl
                  /\ ~Ev.bad
-    /\ StatsOK /\ pressure' = pressure
+    /\ StatsOK /\ pressure' = pressure /\ memsize' = memsize
 
-TRise   == Is("Rise")   /\ Rise(Ev.t)   /\ StatsOK /\ pressure' = pressure
-TRemove == Is("Remove") /\ Remove(Ev.k) /\ StatsOK /\ pressure' = pressure
-TClear  == Is("Clear")  /\ Clear        /\ StatsOK /\ pressure' = pressure
-TTick   == Is("Tick")   /\ Tick(Ev.d) /\ nv' = nv /\ StatsOK /\ pressure' = pressure
+TRise   == Is("Rise")   /\ Rise(Ev.t)   /\ StatsOK /\ pressure' = pressure /\ memsize' = memsize
+TRemove == Is("Remove") /\ Remove(Ev.k) /\ StatsOK /\ pressure' = pressure /\ memsize' = memsize
+TClear  == Is("Clear")  /\ Clear        /\ StatsOK /\ pressure' = pressure /\ memsize' = memsize
+TTick   == Is("Tick")   /\ Tick(Ev.d) /\ nv' = nv /\ StatsOK /\ pressure' = pressure /\ memsize' = memsize
 
-TraceInit == Init /\ l = 1 /\ pressure = FALSE
+TraceInit == Init /\ l = 1 /\ pressure = FALSE /\ memsize = 0
 TraceNext == TReset \/ TPressure \/ TStore \/ TFetch \/ TRise \/ TRemove \/ TClear \/ TTick
 TraceSpec == TraceInit /\ [][TraceNext]_tvars
 =============================================================================
